@@ -24,7 +24,7 @@ func init() {
 		Rule: "E1 over typedef chains: base type (int8, uint8, int64, uint64, decimal64 with 1/2/18 fraction digits, string) x a restriction chosen independently at every level of the chain (typedef t1, typedef t2 (t3), leaf) from a lattice (none, min..max, 0..10, 2..8, parts with a gap, adjacent parts, a single value, unordered, overlapping, out of base, min..5, 5..max, a restriction kind that does not apply; lengths and 0-2 patterns for strings) x a default placed at the leaf, at one typedef or nowhere, valid or invalid. " +
 			"A reference with math/big computes per level: applicable kind, parts ordered and disjoint, subset of the level below (adjacent integer parts merge, decimal parts do not), and the effective default (nearest definition) which must lie in the final value space. The compile verdict must match; on success Type.Validate on every boundary +-1 unit of every level and Default() must match. Non-trivial = a chain with >= 2 restricted levels or a default.",
 		Bound: map[string]string{
-			"quick":    "2 typedef levels + leaf restriction, 11-entry lattice per numeric base, 6 default placements",
+			"quick":    "families: typedef chains of depth 1-5 (aliases, optionally restricted at the first level) used by 2 or 3 leaves of one module with different restrictions; chains: 2 typedef levels + leaf restriction, 11-entry lattice per numeric base, 6 default placements",
 			"thorough": "3 typedef levels + leaf restriction, 14-entry lattice",
 		},
 		Assumptions: []string{
@@ -383,11 +383,19 @@ func check(c chain) (vs []engine.Violation, outcome string) {
 		mk("invalid-chain-accepted:"+c.shape()+":"+ref.why, "reference: "+ref.why)
 		return vs, "ok-but-invalid"
 	}
-	n := res.MS.Child("l")
+	return append(vs, checkLeaf(c, ref, res.MS, "l", mk)...), "ok"
+}
+
+// checkLeaf compares Validate and Default of one compiled leaf with the reference of its chain.
+func checkLeaf(c chain, ref refResult, ms schema.ModelSet, leaf string, mk func(key, detail string)) (vs []engine.Violation) {
+	n := ms.Child(leaf)
 	if n == nil {
-		mk("leaf-missing", "")
-		return vs, "ok"
+		mk("leaf-missing", leaf)
+		return nil
 	}
+	before := 0
+	report := mk
+	mk = func(key, detail string) { before++; report(key, detail) }
 	var t schema.Type = n.Type()
 	for _, p := range c.probes(ref) {
 		want := c.member(ref, p)
@@ -409,8 +417,8 @@ func check(c chain) (vs []engine.Violation, outcome string) {
 		case !want && err == nil:
 			mk("non-member-accepted:"+c.shape(), fmt.Sprintf("%q violates a restriction of the chain; Validate accepts it", p))
 		}
-		if len(vs) > 0 {
-			return vs, "ok"
+		if before > 0 {
+			return nil
 		}
 	}
 	if lf, ok := n.(schema.Leaf); ok {
@@ -419,13 +427,120 @@ func check(c chain) (vs []engine.Violation, outcome string) {
 			mk("wrong-default:"+c.shape(), fmt.Sprintf("expected default %q/%v, got %q/%v", ref.def, ref.hasDef, d, has))
 		}
 	}
+	return nil
+}
+
+// family: one typedef chain used by several leaves of one module, each with its own restriction
+// (every leaf must behave as if it were the only user of the chain).
+type family struct {
+	Base     string  `json:"base"`
+	Typedefs []level `json:"typedefs"`
+	Leaves   []level `json:"leaves"`
+}
+
+func (f family) chainOf(i int) chain {
+	return chain{Base: f.Base, Levels: append(append([]level{}, f.Typedefs...), f.Leaves[i])}
+}
+
+func (f family) yang() string {
+	// typedefs as in chain.yang(), then one leaf per entry
+	first := f.chainOf(0).yang()
+	cut := strings.Index(first, " leaf l {")
+	var b strings.Builder
+	b.WriteString(first[:cut])
+	for i := range f.Leaves {
+		one := f.chainOf(i).yang()
+		lf := one[strings.Index(one, " leaf l {"):]
+		lf = strings.TrimSuffix(lf, " }")
+		b.WriteString(strings.Replace(lf, " leaf l {", fmt.Sprintf(" leaf l%d {", i), 1))
+	}
+	b.WriteString(" }")
+	return b.String()
+}
+
+func checkFamily(f family) (vs []engine.Violation, outcome string) {
+	mk := func(key, detail string) {
+		vs = append(vs, engine.Violation{Key: key, Witness: f.yang(), Detail: detail, Harness: "family", Replay: engine.JSON(f)})
+	}
+	valid := true
+	refs := make([]refResult, len(f.Leaves))
+	for i := range f.Leaves {
+		refs[i] = f.chainOf(i).reference()
+		valid = valid && refs[i].valid
+	}
+	res := gen.Compile(map[string]string{"a": f.yang()}, gen.Options{})
+	switch res.Verdict() {
+	case "panic", "nonterminating":
+		mk(res.Verdict()+":family", fmt.Sprint(res.Panic))
+		return vs, res.Verdict()
+	case "error":
+		if valid {
+			mk("valid-family-rejected:"+f.chainOf(0).shape(), res.Err.Error())
+		}
+		return vs, "error"
+	}
+	if !valid {
+		mk("invalid-family-accepted:"+f.chainOf(0).shape(), "one of the leaves has an invalid chain")
+		return vs, "ok-but-invalid"
+	}
+	for i := range f.Leaves {
+		c := f.chainOf(i)
+		checkLeaf(c, refs[i], res.MS, fmt.Sprintf("l%d", i), func(key, detail string) {
+			mk("sibling-leaves:"+key+fmt.Sprintf(":leaf-%d-of-%d:typedefs=%d", i, len(f.Leaves), len(f.Typedefs)), detail)
+		})
+	}
 	return vs, "ok"
+}
+
+func runFamilies(c *engine.Ctx) {
+	leafRestr := map[string][]string{
+		"string": {"", "pattern:[a-z]*", "pattern:[0-9]+", "length:2..8", "pattern:a.*&.*b"},
+		"uint8":  {"", "0..10", "2..8", "5", "min..5"},
+		"int64":  {"", "0..10", "-200..0"},
+	}
+	for _, base := range []string{"string", "uint8", "int64"} {
+		first := map[string]string{"string": "length:0..10", "uint8": "0..10", "int64": "-200..10"}[base]
+		for depth := 1; depth <= 5; depth++ {
+			for _, restrictFirst := range []bool{false, true} {
+				tds := make([]level, depth)
+				if restrictFirst {
+					tds[0].Restr = first
+				}
+				rs := leafRestr[base]
+				var rec func(leaves []level)
+				rec = func(leaves []level) {
+					if len(leaves) >= 2 {
+						f := family{Base: base, Typedefs: tds, Leaves: append([]level{}, leaves...)}
+						id := "family:" + f.yang()
+						if c.Owns(id) && c.Case(id) {
+							c.Add("states", 1)
+							c.Add("transitions", int64(len(leaves)))
+							c.Nontrivial()
+							vs, outcome := checkFamily(f)
+							c.Outcome("family:" + outcome)
+							for _, v := range vs {
+								c.Report(v)
+							}
+						}
+					}
+					if len(leaves) == 3 || c.Expired() {
+						return
+					}
+					for _, r := range rs {
+						rec(append(append([]level{}, leaves...), level{Restr: r}))
+					}
+				}
+				rec(nil)
+			}
+		}
+	}
 }
 
 var numLattice = []string{"", "min..max", "0..10", "2..8", "0..4 | 6..10", "0..4 | 5..10", "5", "3..2", "0..5 | 5..8", "0..5 | 3..8", "-200..0", "min..5", "5..max", "length:1..2"}
 var strLattice = []string{"", "length:min..max", "length:0..10", "length:2..8", "length:0..4 | 6..10", "length:1", "length:3..2", "length:0..2 | 2..5", "length:min..5", "pattern:[a-z]*", "pattern:a.*&.*b", "pattern:[0-9]+", "0..5"}
 
 func run(c *engine.Ctx) {
+	runFamilies(c)
 	bases := []string{"int8", "uint8", "int64", "uint64", "decimal64/1", "decimal64/2", "decimal64/18", "string"}
 	nTypedefs := 2
 	nlat := 11
@@ -507,6 +622,14 @@ func run(c *engine.Ctx) {
 }
 
 func replay(c *engine.Ctx, sub string, raw json.RawMessage) []engine.Violation {
+	if sub == "family" {
+		var f family
+		if json.Unmarshal(raw, &f) != nil || len(f.Leaves) == 0 {
+			return []engine.Violation{{Key: "harness-bad-replay-file"}}
+		}
+		vs, _ := checkFamily(f)
+		return vs
+	}
 	var ch chain
 	if json.Unmarshal(raw, &ch) != nil {
 		return []engine.Violation{{Key: "harness-bad-replay-file"}}
